@@ -123,6 +123,9 @@ pub struct B {
     oo: Option<Option<String>>,
     #[arg(short = 'm', long, value_enum)]
     mode: Option<Mode>,
+    /// a scalar field whose argument ends up holding several values: the field is the first one
+    #[arg(long, value_delimiter = ',')]
+    csv: Option<String>,
 }
 impl Corpus for B {
     const NAME: &'static str = "B(T,Option<T>,Option<Option<T>>,value_enum)";
@@ -132,6 +135,7 @@ impl Corpus for B {
             num: one(m, "num"),
             oo: if m.contains_id("oo") { Some(one(m, "oo")) } else { None },
             mode: one(m, "mode"),
+            csv: one(m, "csv"),
         }
     }
     fn pieces(&self) -> Vec<(&'static str, Vec<String>)> {
@@ -147,13 +151,15 @@ impl Corpus for B {
                 },
             ),
             ("mode", self.mode.iter().flat_map(|m| ["-m".to_string(), m.print()]).collect()),
+            // printed with a second delimited piece behind it
+            ("csv", self.csv.iter().map(|v| format!("--csv={},tail", v)).collect()),
         ]
     }
     fn arbitrary(rng: &mut Rng) -> Self {
-        B { req: word(rng), num: opt(rng, |r| r.below(2000) as i32 - 1000), oo: opt(rng, |r| opt(r, word)), mode: opt(rng, Mode::arb) }
+        B { req: word(rng), num: opt(rng, |r| r.below(2000) as i32 - 1000), oo: opt(rng, |r| opt(r, word)), mode: opt(rng, Mode::arb), csv: opt(rng, word) }
     }
     fn fields(&self) -> Vec<(&'static str, String)> {
-        vec![("req", format!("{:?}", self.req)), ("num", format!("{:?}", self.num)), ("oo", format!("{:?}", self.oo)), ("mode", format!("{:?}", self.mode))]
+        vec![("req", format!("{:?}", self.req)), ("num", format!("{:?}", self.num)), ("oo", format!("{:?}", self.oo)), ("mode", format!("{:?}", self.mode)), ("csv", format!("{:?}", self.csv))]
     }
 }
 
